@@ -32,17 +32,32 @@ def replay_class(ctx, behs, cls, flags, tag):
     mms = [(r, behs[r['b']]) for r in res if not r.get('ok')]
     # the hook-event stream of the same run must follow the ordering rules of KevoStore's actions (TRACE_StoreProto)
     if conc != 'big' and os.path.exists(hooks) and not mms:
-        ok, hw, st, outp = tlc_trace(ctx, 'TRACE_StoreProto', 'TRACE_StoreProto.cfg', hooks, timeout=600, tag=f'proto-{tag}-{name}')
-        ctx.notes['hook_events_validated'] = ctx.notes.get('hook_events_validated', 0) + st.get('distinct', 0)
-        if not ok:
-            if not hw:
-                raise Infra('hook trace rejected without a position:\n' + outp[-1500:])
-            lines = open(hooks).read().splitlines()
-            b = sum(1 for x in lines[:hw] if '"h.reset"' in x) - 1
-            ev = json.loads(lines[hw - 1]) if hw <= len(lines) else {}
-            prev = [json.loads(x).get('site') for x in lines[max(0, hw - 6):hw - 1]]
-            mms.append(({'b': b, 'step': -2, 'a': 'hooks', 'kind': 'order', 'key': ev.get('site'), 'exp': 'an event order KevoStore allows',
-                         'got': f"{ev.get('site')}(a={ev.get('a')}, b={ev.get('b')}) after {prev}"}, behs[b]))
+        # validated in chunks that start at an h.reset event (the monitor's state is reset there): TLC time grows with the length
+        lines = open(hooks).read().splitlines()
+        chunks, cur, nb = [], [], 0
+        for x in lines:
+            if '"h.reset"' in x and len(cur) >= 120000:
+                chunks.append((nb, cur))
+                nb += sum(1 for y in cur if '"h.reset"' in y)
+                cur = []
+            cur.append(x)
+        if cur:
+            chunks.append((nb, cur))
+        for ci, (b0, chunk) in enumerate(chunks):
+            hp = hooks if len(chunks) == 1 else f'{hooks}.{ci}'
+            if len(chunks) > 1:
+                open(hp, 'w').write('\n'.join(chunk) + '\n')
+            ok, hw, st, outp = tlc_trace(ctx, 'TRACE_StoreProto', 'TRACE_StoreProto.cfg', hp, timeout=900, tag=f'proto-{tag}-{name}-{ci}')
+            ctx.notes['hook_events_validated'] = ctx.notes.get('hook_events_validated', 0) + st.get('distinct', 0)
+            if not ok:
+                if not hw:
+                    raise Infra('hook trace rejected without a position:\n' + outp[-1500:])
+                b = b0 + sum(1 for x in chunk[:hw] if '"h.reset"' in x) - 1
+                ev = json.loads(chunk[hw - 1]) if hw <= len(chunk) else {}
+                prev = [json.loads(x).get('site') for x in chunk[max(0, hw - 6):hw - 1]]
+                mms.append(({'b': b, 'step': -2, 'a': 'hooks', 'kind': 'order', 'key': ev.get('site'), 'exp': 'an event order KevoStore allows',
+                             'got': f"{ev.get('site')}(a={ev.get('a')}, b={ev.get('b')}) after {prev}"}, behs[b]))
+                break
     return mms, n
 
 
